@@ -11,6 +11,7 @@
 // if2switch: if a {A} else if b {B} else {C} -> switch { case a: A; case b: B; default: C }   (no unlabeled break inside)
 // earlyelse: if c {A; return}; B         ->  if c {A; return} else {B}
 // elseflat:  if c {A; return} else {B}   ->  if c {A; return}; B
+// renamelocals: every local variable, parameter, receiver and named result x -> xQ
 // range2index: for i, v := range s {..}  ->  for i := 0; i < len(s); i++ { v := s[i]; .. }   (s a slice named by an identifier or field, not assigned in the loop)
 //
 // Only non-test files of the named packages are rewritten; type information decides where a rewrite is safe.
@@ -150,6 +151,31 @@ func rewrite(p *packages.Package, f *ast.File, mode string) int {
 	info := p.TypesInfo
 	n := 0
 	tmp := 0
+	if mode == "renamelocals" {
+		isLocal := func(o types.Object) bool {
+			v, ok := o.(*types.Var)
+			if !ok || v.IsField() || v.Pkg() == nil || v.Name() == "_" || v.Name() == "" {
+				return false
+			}
+			return v.Parent() != nil && v.Parent() != v.Pkg().Scope() && v.Parent() != types.Universe
+		}
+		ast.Inspect(f, func(nd ast.Node) bool {
+			id, ok := nd.(*ast.Ident)
+			if !ok {
+				return true
+			}
+			o := info.Defs[id]
+			if o == nil {
+				o = info.Uses[id]
+			}
+			if o != nil && isLocal(o) {
+				id.Name += "Q"
+				n++
+			}
+			return true
+		})
+		return n
+	}
 	astutil.Apply(f, nil, func(c *astutil.Cursor) bool {
 		switch x := c.Node().(type) {
 		case *ast.IfStmt:
